@@ -15,7 +15,8 @@ PROPERTY = "C19"
 LEVEL = "fault_enumeration"
 TIMEOUT = 900
 BUDGET = {"quick": 240, "thorough": 2400}
-RULE = ("Fault enumeration over sources of run-to-run variation: each generated program (expression DAGs, bundles, "
+RULE = ("Fault enumeration over sources of run-to-run variation: each program (generated expression DAGs, bundles, "
+        "multi-merge balanced-loader patterns, and the repository's own example_programs/*.facto; "
         "memories, latches, user entities, implicit signals, unknown-to-draftsman state) is compiled by the real "
         "compiler (a) in fresh interpreter processes with PYTHONHASHSEED in {0, 1, 2, 12345, random} from different "
         "working directories, (b) in one process under injected solver schedules {first(seed) x3, budget(d), fail(k), "
